@@ -25,8 +25,10 @@ class _NoCache:
 
 
 class _FakeTop:
-    def __init__(self, have_H, mode=LA.space_time):
+    def __init__(self, have_H, mode=LA.space_time, halfway=False):
         self._have_H = have_H
+        self._halfway_tree = halfway
+        self._round = lambda x: x
         self._increment_and_space_time_levy_area_cache = _NoCache()
         self._levy_area_approximation = mode
 
@@ -57,7 +59,7 @@ class _FakeParent:
         yield
 
 
-def split(B, have_H, is_left):
+def split(B, have_H, is_left, halfway=False):
     s, m, e = B.t('s'), B.t('m'), B.t('e')
     W = B.x('W', ())
     H = B.x('H', ()) if have_H else None
@@ -66,7 +68,7 @@ def split(B, have_H, is_left):
     child = bi._Interval.__new__(bi._Interval)
     child._parent = _FakeParent(s, m, e, W, H, X1, X2)
     child._is_left = is_left
-    child._top = _FakeTop(have_H)
+    child._top = _FakeTop(have_H, halfway=halfway)
     out_W, out_H = _drive(child._increment_and_space_time_levy_area())
     r = {'W': out_W}
     if have_H:
@@ -107,6 +109,7 @@ class _FakeBI:
         self._size = size
         self._dtype, self._device = torch.float64, torch.device('cpu')
         self._last_interval = _FakeLast(pieces)
+        self._round = lambda x: x  # tol = 0
 
 
 def aggregate(B, npieces, have_A):
